@@ -1,26 +1,40 @@
 ------------------------------ MODULE TraceC12 ------------------------------
 (* Code -> spec for C12.  The trace file holds                                                   *)
 (*   runs   recorded runs of the bytes line of StubRoundTrip (Canonical, Encode, Decode,          *)
-(*          Reencode, Reserialize) on real ASTs: emitted, exported (io.write_pickle's             *)
-(*          PrepareForExport), StubGen in both dialects, every bundled stub, the module bundle;   *)
+(*          Reencode, Reserialize) on real ASTs: inferred, exported (io.write_pickle's            *)
+(*          PrepareForExport), StubGen in both dialects, every bundled / loaded stub, the module   *)
+(*          bundle;                                                                                *)
 (*   terms  the term list exported by PytdEq.tla (checked here to be exactly AllTerms);           *)
-(*   rows   for term number a and every term number j: eq[j] = (node_a == node_j),                *)
-(*          hq[j] = (hash(node_a) == hash(node_j)), sc[j] = (len({node_a, node_j}) == 1), all       *)
-(*          observed on the real pytd nodes built from the terms.                                  *)
-(* Verdicts (BAD lines):  runs: C12Fails(art).  rows, for every j:                                 *)
+(*   rows   for term number a: eq = the numbers j with node_a == node_j; among those,              *)
+(*          hne = the j with hash(node_a) # hash(node_j), keep = the j where {node_a, node_j}       *)
+(*          (and a dict keyed by both) keeps two entries; all observed on the real pytd nodes       *)
+(*          built from the terms.                                                                  *)
+(*          each record: events (the main run), devs (documented deviations whose trigger occurs  *)
+(*          in the AST), variants (counterfactual runs <<without, events>> with the triggers       *)
+(*          removed; used for attribution only, as in TraceC05);                                   *)
+(* Verdicts (BAD lines):  runs: C12Fails(art) of the main run + attr.  rows, for every j:          *)
 (*   eqm   (a == b) # SpecEq(a, b)              equality is not the specified one                  *)
 (*   hash  a == b but hash(a) # hash(b)         equal nodes must hash equally                      *)
 (*   set   a == b but {a, b} keeps both          de-duplication keeps two equal types               *)
-(* together with `variant`: the j among the failing ones where the two terms differ only by        *)
-(* order / repetition / nesting of union members (the discriminator of the known finding).         *)
+(* together with the discriminators of the known findings, computed here:                          *)
+(*   variant  the failing j where the two terms differ only by order / repetition / nesting of     *)
+(*            union members (OrderVariant)                                                         *)
+(*   litvar   the failing j where the two terms differ only by a raw-bool literal against the      *)
+(*            equal int literal (LitVariant)                                                       *)
 EXTENDS StubRoundTrip, PytdEq, IOUtils, TLCExt
 
-Trace == JsonDeserialize(IOEnv.TRACE_FILE)
-Runs == Trace.runs
-Terms == Trace.terms
-Rows == Trace.rows
+TraceData == JsonDeserialize(IOEnv.TRACE_FILE)
+Runs == TraceData.runs
+Terms == TraceData.terms
+Rows == TraceData.rows
 
-VARIABLES i, k, j
+VARIABLES i,      \* run record (one AST)
+          v,      \* run of the record: 1 = main, 1 + x = counterfactual variant x
+          k,      \* events of the run consumed so far
+          acc,    \* fails of the finished runs of the record
+          j       \* row
+
+ToSetT(s) == {s[x] : x \in DOMAIN s}
 
 Apply(e) ==
   CASE e.op = "Canonical"   -> Canonicalize(e.ok, e.d)
@@ -29,50 +43,77 @@ Apply(e) ==
     [] e.op = "Reencode"    -> ReencodeObj(e.ok, e.d)
     [] e.op = "Reserialize" -> ReserializeAst(e.ok, e.d)
 
-TInit == /\ i = 1 /\ k = 0 /\ j = 0 /\ line = "bytes" /\ phase = "start" /\ art = Art0
+NRuns(c) == 1 + Len(c.variants)
+Events(c, r) == IF r = 1 THEN c.events ELSE c.variants[r - 1].events
+
+TInit == /\ i = 1 /\ v = 1 /\ k = 0 /\ acc = <<>> /\ j = 0
+         /\ line = "bytes" /\ phase = "start" /\ art = Art0
          /\ pair = <<AnyT, AnyT>> /\ TLCSet(1, FALSE)
 
 StepEvent ==
-  /\ i <= Len(Runs) /\ k < Len(Runs[i].events)
-  /\ Apply(Runs[i].events[k + 1])
-  /\ k' = k + 1 /\ UNCHANGED <<i, j, pair>>
-
-NextRun ==
-  /\ i <= Len(Runs) /\ k = Len(Runs[i].events)
-  /\ i' = i + 1 /\ k' = 0 /\ Start("bytes") /\ UNCHANGED <<j, pair>>
-
-NextRow ==
-  /\ i > Len(Runs) /\ j <= Len(Rows)
-  /\ j' = j + 1 /\ UNCHANGED <<i, k, pair, rvars>>
-  /\ (j' > Len(Rows) => TLCSet(1, TRUE))
-
-TNext == StepEvent \/ NextRun \/ NextRow
+  /\ i <= Len(Runs) /\ k < Len(Events(Runs[i], v))
+  /\ Apply(Events(Runs[i], v)[k + 1])
+  /\ k' = k + 1 /\ UNCHANGED <<i, v, acc, j, pair>>
 
 RunFails == C12Fails(art) \cup (IF Ended THEN {} ELSE {"incomplete"})
 
+NextVariant ==
+  /\ i <= Len(Runs) /\ k = Len(Events(Runs[i], v)) /\ v < NRuns(Runs[i])
+  /\ acc' = Append(acc, RunFails)
+  /\ v' = v + 1 /\ k' = 0 /\ Start("bytes") /\ UNCHANGED <<i, j, pair>>
+
+NextRun ==
+  /\ i <= Len(Runs) /\ k = Len(Events(Runs[i], v)) /\ v = NRuns(Runs[i])
+  /\ i' = i + 1 /\ v' = 1 /\ k' = 0 /\ acc' = <<>> /\ Start("bytes") /\ UNCHANGED <<j, pair>>
+
+NextRow ==
+  /\ i > Len(Runs) /\ j <= Len(Rows)
+  /\ j' = j + 1 /\ UNCHANGED <<i, v, k, acc, pair, rvars>>
+  /\ (j' > Len(Rows) => TLCSet(1, TRUE))
+
+TNext == StepEvent \/ NextVariant \/ NextRun \/ NextRow
+
+AtEnd == i <= Len(Runs) /\ k = Len(Events(Runs[i], v)) /\ v = NRuns(Runs[i])
+
+(* verdict on one record: the fails of the main run and their attribution - the documented      *)
+(* deviations present in the AST explain the failure iff the run with their triggers removed    *)
+(* is clean; otherwise {"unexplained"}                                                          *)
+RunVerdict ==
+  LET c == Runs[i]
+      all == Append(acc, RunFails)
+      main == all[1]
+      present == ToSetT(c.devs)
+      residual == IF present = {} \/ Len(all) < 2 THEN main ELSE all[2]
+      attr == IF main = {} THEN {}
+              ELSE IF present = {} \/ residual # {} THEN {"unexplained"} ELSE present IN
+    [run |-> i, id |-> c.id, fails |-> main, attr |-> attr]
+
 (* the rows were computed for exactly the terms the specification enumerates *)
-TermsBound == Rows = <<>> \/ SeqToSet(Terms) = AllTerms
+TermsBound == Rows = <<>> \/ ToSetT(Terms) = AllTerms
 
 RowVerdict(r) ==
   LET a == Terms[r.a]
       N == DOMAIN Terms
-      eqm  == {x \in N : (r.eq[x] = 1) # SpecEq(a, Terms[x])}
-      hash == {x \in N : r.eq[x] = 1 /\ r.hq[x] = 0}
-      set  == {x \in N : r.eq[x] = 1 /\ r.sc[x] = 0}
+      EQ == ToSetT(r.eq)
+      eqm  == {x \in N : (x \in EQ) # SpecEq(a, Terms[x])}
+      hash == ToSetT(r.hne) \cap EQ
+      set  == ToSetT(r.keep) \cap EQ
       bad  == eqm \cup hash \cup set IN
     [a |-> r.a, eqm |-> eqm, hash |-> hash, set |-> set,
-     variant |-> {x \in bad : OrderVariant(a, Terms[x])}]
+     variant |-> {x \in bad : OrderVariant(a, Terms[x])},
+     litvar |-> {x \in bad : LitVariant(a, Terms[x])},
+     nvariants |-> Cardinality({x \in N : OrderVariant(a, Terms[x])})]
 
 Ok ==
-  /\ (i <= Len(Runs) /\ k = Len(Runs[i].events)) =>
-       /\ LET f == RunFails IN
-            f = {} \/ PrintT(<<"BAD", ToJson([run |-> i, id |-> Runs[i].id, fails |-> f])>>)
-       /\ LET n == C12Notes(art) IN
-            n = {} \/ PrintT(<<"NOTE", ToJson([run |-> i, id |-> Runs[i].id, notes |-> n])>>)
+  /\ AtEnd => LET r == RunVerdict IN r.fails = {} \/ PrintT(<<"BAD", ToJson(r)>>)
+  /\ (i <= Len(Runs) /\ v = 1 /\ k = Len(Runs[i].events)) =>
+       LET n == C12Notes(art) IN
+         n = {} \/ PrintT(<<"NOTE", ToJson([run |-> i, id |-> Runs[i].id, notes |-> n])>>)
   /\ (i > Len(Runs) /\ j = 0) => (TermsBound \/ PrintT(<<"BAD", ToJson([terms |-> "mismatch"])>>))
   /\ (i > Len(Runs) /\ j >= 1 /\ j <= Len(Rows)) =>
-       LET v == RowVerdict(Rows[j]) IN
-         (v.eqm = {} /\ v.hash = {} /\ v.set = {}) \/ PrintT(<<"BAD", ToJson(v)>>)
+       LET rv == RowVerdict(Rows[j]) IN
+         /\ PrintT(<<"ROW", ToJson([a |-> rv.a, nvariants |-> rv.nvariants])>>)
+         /\ (rv.eqm = {} /\ rv.hash = {} /\ rv.set = {}) \/ PrintT(<<"BAD", ToJson(rv)>>)
 
 Done == TLCGet(1)
 =============================================================================
